@@ -15,7 +15,8 @@ def main():
     logging.disable(logging.CRITICAL)
     try:
         gib = int(os.environ.get("VERIF_AS_GIB", "6"))
-        resource.setrlimit(resource.RLIMIT_AS, (gib << 30, gib << 30))
+        hard = resource.getrlimit(resource.RLIMIT_AS)[1]
+        resource.setrlimit(resource.RLIMIT_AS, (gib << 30, hard))
     except Exception:
         pass
     from . import build, findings
